@@ -5,6 +5,10 @@
 //!   enum <parser> <maxlen> <prefix>   every string over the 15-symbol alphabet extending <prefix> up to
 //!                                     <maxlen> characters: `<strings> <accepted> <fnv64 of the answers>`
 //!
+//!   enumx <parser> <maxlen> <alphabet> <prefix>   the same over any alphabet (letters of both cases, deeper sub-alphabets)
+//!   o1 <text> / o2 <text>             arbitrary Unicode text (any character class), judged by the oracle alone
+//!   long <parser> <kind> <n>          a text of up to 10^6 characters built from (kind, n); totality + exact meaning
+//!
 //! Oracle (independent of the Lean model): a *conventional-reading* evaluator.  Whenever a parser accepts a
 //! text, the text (white space removed) must have a reading as an arithmetic expression over numbers,
 //! single-letter variables, + - * / ^, parentheses, juxtaposition and unary signs, and the returned
@@ -12,9 +16,31 @@
 use crate::c01::show_parsed as show1;
 use crate::c02::show_parsed as show2;
 use crate::util::*;
+use spindalis_core::polynomials::intermediate::parse_intermediate_polynomial;
+use spindalis_core::polynomials::simple::parse_simple_polynomial;
 use spindalis_core::polynomials::structs::{IntermediatePolynomial, PolynomialTraits, SimplePolynomial};
 
 pub const ALPHABET: &[char] = &['x', 'y', '2', '3', '0', '.', '^', '+', '-', '/', '*', '(', ')', ' ', '#'];
+/// letters of both cases, a third letter, non-ASCII letters (in the model's class table) with the core operators
+pub const LETTER_ALPHABET: &[char] = &['x', 'X', 'y', 'k', 'é', 'Ω', '2', '^', '+', '-', '.', ' '];
+pub const ALL52_ALPHABET: &str = "abcdefghijklmnopqrstuvwxyzABCDEFGHIJKLMNOPQRSTUVWXYZ2^+-. /é";
+pub const DEEP_ALPHABET: &[char] = &['x', 'y', '2', '^', '+', '-', '.', '/'];
+/// characters next to the accepted ones in Unicode order, and look-alikes of the accepted ones
+pub const CONFUSABLES: &[char] = &[
+    '/', ':', ',', '*', ')', '(', ']', '_', '`', '@', '[', '{', '~', '!', '$', '%', '&', '=', '<', '>', '?', '|', '\\', '"', '\'', ';', '#',
+    '\u{2212}', '\u{2010}', '\u{2011}', '\u{2012}', '\u{2013}', '\u{2014}', '\u{ad}', '\u{fe63}', '\u{ff0d}', // minus / hyphen look-alikes
+    '\u{ff0b}', '\u{207a}', '\u{2795}', '\u{fe62}', // plus
+    '\u{ff3e}', '\u{2c6}', '\u{2c4}', '\u{302}', // caret
+    '\u{2044}', '\u{2215}', '\u{ff0f}', '\u{f7}', // slash / division
+    '\u{b7}', '\u{d7}', '\u{22c5}', '\u{2217}', '\u{ff0a}', // multiplication
+    '\u{ff0e}', '\u{2024}', '\u{66b}', '\u{66c}', '\u{201a}', // decimal point / separators
+    '\u{200b}', '\u{200c}', '\u{200d}', '\u{2060}', '\u{feff}', '\u{180e}', '\u{0}', '\u{7f}', '\u{1b}', '\u{1c}', '\u{1f}', // invisible, not white space
+    '\u{fffd}', '\u{10ffff}', '\u{e000}', '\u{1f600}', '\u{d7ff}',
+];
+/// numeric characters that are not ASCII digits (decimal digits of other scripts, superscripts, fractions, letter numbers)
+pub const NUMERICS: &[char] = &[
+    '²', '³', '¹', '⁰', '⁴', '₂', '½', '¼', '٣', '۲', '०', '২', '０', '１', '２', '９', '𝟐', '𝟚', 'Ⅳ', 'ⅷ', '①', '㊀', '〇', '零', '𐄇',
+];
 
 // ---------------------------------------------------------------- conventional reading
 
@@ -186,6 +212,11 @@ impl<'a> Rd<'a> {
     }
 }
 
+thread_local! {
+    /// set when the reading divides by exactly zero (the text has no value, whatever the point)
+    static DIV_BY_ZERO: std::cell::Cell<bool> = const { std::cell::Cell::new(false) };
+}
+
 /// value of the reading; `big` records the largest magnitude met on the way (points where the reading itself
 /// leaves the comfortable range of binary64 are not used for the comparison)
 fn eval(e: &Ex, env: &dyn Fn(char) -> f64, big: &mut f64) -> f64 {
@@ -199,7 +230,12 @@ fn eval(e: &Ex, env: &dyn Fn(char) -> f64, big: &mut f64) -> f64 {
                 '+' => x + y,
                 '-' => x - y,
                 '*' => x * y,
-                '/' => x / y,
+                '/' => {
+                    if y == 0.0 {
+                        DIV_BY_ZERO.with(|f| f.set(true));
+                    }
+                    x / y
+                }
                 _ => x.powf(y),
             }
         }
@@ -252,18 +288,26 @@ pub fn fidelity1(text: &str, r: &Result<SimplePolynomial, spindalis_core::polyno
             if p.coefficients.iter().all(|c| *c == 0.0) { Ok(()) } else { Err("empty text read as a non-zero polynomial".into()) }
         }
         Some(Some(e)) => {
+            let mut div0 = 0;
             for k in 0..3 {
+                DIV_BY_ZERO.with(|f| f.set(false));
                 let env = env_at(k);
                 let x = p.variable.map(|c| env(c)).unwrap_or(1.0);
                 let got = p.eval_univariate(x).map_err(|e| format!("eval failed {e:?}"))?;
                 let mut big = 0.0;
                 let want = eval(&e, &env, &mut big);
+                if DIV_BY_ZERO.with(|f| f.get()) {
+                    div0 += 1;
+                }
                 if big > 1e100 {
                     continue; // overflow territory: exponents are merged/ordered differently
                 }
                 if !close(got, want, big) {
                     return Err(format!("misread: the polynomial gives {got:?}, the text reads as {want:?}"));
                 }
+            }
+            if div0 == 3 {
+                return Err("accepted a text whose reading divides by zero at every point (it has no value)".into());
             }
             Ok(())
         }
@@ -278,19 +322,27 @@ pub fn fidelity2(text: &str, r: &Result<IntermediatePolynomial, spindalis_core::
             if p.terms.is_empty() { Ok(()) } else { Err("empty text read as a non-zero polynomial".into()) }
         }
         Some(Some(e)) => {
+            let mut div0 = 0;
             for k in 0..3 {
+                DIV_BY_ZERO.with(|f| f.set(false));
                 let env = env_at(k);
                 let binds: Vec<(String, f64)> =
                     p.variables.iter().map(|v| (v.clone(), env(v.chars().next().unwrap_or('x')))).collect();
                 let got = p.eval_multivariate(&binds).map_err(|e| format!("eval failed {e:?}"))?;
                 let mut big = 0.0;
                 let want = eval(&e, &env, &mut big);
+                if DIV_BY_ZERO.with(|f| f.get()) {
+                    div0 += 1;
+                }
                 if big > 1e100 {
                     continue; // overflow territory: exponents are merged/ordered differently
                 }
                 if !close(got, want, big) {
                     return Err(format!("misread: the polynomial gives {got:?}, the text reads as {want:?}"));
                 }
+            }
+            if div0 == 3 {
+                return Err("accepted a text whose reading divides by zero at every point (it has no value)".into());
             }
             Ok(())
         }
@@ -316,18 +368,45 @@ struct Acc {
 fn answer(parser: usize, text: &str) -> (String, Result<(), String>) {
     if parser == 1 {
         match catch(|| SimplePolynomial::parse(text)) {
-            Some(r) => (show1(&r), fidelity1(text, &r)),
+            Some(r) => {
+                let a = show1(&r);
+                // every entry point of the univariate parser tells the same story
+                let verdict = fidelity1(text, &r).and_then(|_| match catch(|| (parse_simple_polynomial(text), parse_simple_polynomial(text.to_string()))) {
+                    None => Err("parse_simple_polynomial panicked".to_string()),
+                    Some((f, g)) => {
+                        if show1(&f) == a && show1(&g) == a {
+                            Ok(())
+                        } else {
+                            Err(format!("entry points differ: trait `{a}`, free function `{}` / `{}`", show1(&f), show1(&g)))
+                        }
+                    }
+                });
+                (a, verdict)
+            }
             None => ("panic".into(), Err("the parser panicked".into())),
         }
     } else {
         match catch(|| IntermediatePolynomial::parse(text)) {
-            Some(r) => (show2(&r), fidelity2(text, &r)),
+            Some(r) => {
+                let a = show2(&r);
+                let verdict = fidelity2(text, &r).and_then(|_| match catch(|| (parse_intermediate_polynomial(text), parse_intermediate_polynomial(text.to_string()))) {
+                    None => Err("parse_intermediate_polynomial panicked".to_string()),
+                    Some((f, g)) => {
+                        if show2(&f) == a && show2(&g) == a {
+                            Ok(())
+                        } else {
+                            Err(format!("entry points differ: trait `{a}`, free function `{}` / `{}`", show2(&f), show2(&g)))
+                        }
+                    }
+                });
+                (a, verdict)
+            }
             None => ("panic".into(), Err("the parser panicked".into())),
         }
     }
 }
 
-fn enum_from(parser: usize, budget: usize, s: &mut String, acc: &mut Acc) {
+fn enum_from(parser: usize, alphabet: &[char], budget: usize, s: &mut String, acc: &mut Acc) {
     let (a, v) = answer(parser, s);
     acc.n += 1;
     if a.starts_with("ok") {
@@ -344,9 +423,9 @@ fn enum_from(parser: usize, budget: usize, s: &mut String, acc: &mut Acc) {
         }
     }
     if budget > 0 {
-        for c in ALPHABET {
+        for c in alphabet {
             s.push(*c);
-            enum_from(parser, budget - 1, s, acc);
+            enum_from(parser, alphabet, budget - 1, s, acc);
             s.pop();
         }
     }
@@ -360,21 +439,224 @@ pub fn run(line: &str) -> Obs {
             let (a, v) = answer(if cmd == "parse1" { 1 } else { 2 }, &text);
             Obs::with(a, v)
         }
-        "enum" => {
+        cmd @ ("enum" | "enumx") => {
             let parser = t.usize();
             let maxlen = t.usize();
+            let alphabet: Vec<char> = if cmd == "enumx" { t.string().chars().collect() } else { ALPHABET.to_vec() };
             let mut prefix = t.string();
             let mut acc = Acc { n: 0, ok: 0, h: 0xcbf29ce484222325, first_fail: None };
             let budget = maxlen.saturating_sub(prefix.chars().count());
-            enum_from(parser, budget, &mut prefix, &mut acc);
+            enum_from(parser, &alphabet, budget, &mut prefix, &mut acc);
             let verdict = match acc.first_fail {
                 None => Ok(()),
                 Some((s, e)) => Err(format!("on {:?} [{}]: {e}", s, req_string(&s))),
             };
             Obs::with(format!("{} {} {}", acc.n, acc.ok, acc.h), verdict)
         }
+        cmd @ ("o1" | "o2") => {
+            let text = t.string();
+            let (a, v) = answer(if cmd == "o1" { 1 } else { 2 }, &text);
+            Obs::with(a, v)
+        }
+        "long" => {
+            let parser = t.usize();
+            let kind = t.usize();
+            let n = t.usize();
+            let (a, v) = long_case(parser, kind, n);
+            Obs::with(a, v)
+        }
         other => panic!("unknown C16 request {other}"),
     }
+}
+
+// ---------------------------------------------------------------- very long texts
+
+const LETTERS52: &str = "abcdefghijklmnopqrstuvwxyzABCDEFGHIJKLMNOPQRSTUVWXYZ";
+
+/// what a long text must mean
+enum Expect {
+    /// accepted, with this value at each listed point (single variable `x`; exact small integers / dyadics)
+    Values(Vec<(f64, f64)>),
+    /// rejected (a value would be a misreading), never a panic
+    Reject,
+    /// either, but never a panic; if accepted the value at the points must be these
+    RejectOr(Vec<(f64, f64)>),
+    /// accepted: multivariate structure count checks (terms, distinct variables) and value with every variable = 1
+    Multi { terms: usize, variables: usize, at_ones: f64 },
+}
+
+fn long_text(kind: usize, n: usize) -> (String, Expect) {
+    let nf = n as f64;
+    match kind {
+        // n copies of "3x^2-2x+1" joined by '+': like powers are summed over thousands of terms
+        0 => {
+            let mut s = String::with_capacity(10 * n);
+            for i in 0..n {
+                if i > 0 {
+                    s.push('+');
+                }
+                s.push_str("3x^2-2x+1");
+            }
+            (s, Expect::Values(vec![(2.0, 9.0 * nf), (-1.0, 6.0 * nf), (0.5, 0.75 * nf), (0.0, nf)]))
+        }
+        // an exponent with n leading zeros
+        1 => (format!("2x^{}7+1", "0".repeat(n)), Expect::Values(vec![(2.0, 257.0), (-1.0, -1.0), (1.0, 3.0)])),
+        // n white-space characters of every kind inside and around "2x+1"
+        2 => {
+            let ws = crate::c01::ALL_SPACES;
+            let run = |k: usize| -> String { (0..k).map(|i| ws[i % ws.len()]).collect() };
+            (format!("{}2{}x{}+{}1{}", run(n / 4), run(n / 4), run(n / 4), run(n / 4), run(n / 8)), Expect::Values(vec![(2.0, 5.0), (-3.0, -5.0)]))
+        }
+        // x repeated n times: x^n for the multivariate parser, not in the univariate grammar
+        3 => ("x".repeat(n), Expect::RejectOr(vec![(1.0, 1.0), (-1.0, if n % 2 == 0 { 1.0 } else { -1.0 })])),
+        // n minus signs in front of x (doubled operators)
+        4 => (format!("{}x", "-".repeat(n)), if n <= 1 { Expect::Values(vec![(2.0, if n == 1 { -2.0 } else { 2.0 })]) } else { Expect::RejectOr(vec![(2.0, if n % 2 == 0 { 2.0 } else { -2.0 })]) }),
+        // n nested parentheses
+        5 => (format!("{}x{}", "(".repeat(n), ")".repeat(n)), Expect::RejectOr(vec![(2.0, 2.0), (-1.5, -1.5)])),
+        // a tower of n exponents x^2^2^...: x^(2^(2^...)), an even power for n >= 2 (no parser of this library models it)
+        6 => (
+            format!("x{}", "^2".repeat(n)),
+            if n <= 1 { Expect::Values(vec![(3.0, if n == 1 { 9.0 } else { 3.0 })]) } else { Expect::RejectOr(vec![(1.0, 1.0), (-1.0, 1.0)]) },
+        ),
+        // n dots / n carets in a row
+        7 => (format!("{}x", ".".repeat(n)), if n == 0 { Expect::Values(vec![(2.0, 2.0)]) } else { Expect::Reject }),
+        8 => (
+            format!("x{}2", "^".repeat(n)),
+            match n {
+                0 => Expect::RejectOr(vec![(3.0, 6.0)]),
+                1 => Expect::Values(vec![(3.0, 9.0)]),
+                _ => Expect::Reject,
+            },
+        ),
+        // a dangling operator after n terms
+        9 => (format!("{}+", "x+".repeat(n)), Expect::Reject),
+        // x^0 + x^1 + ... + x^(n-1): a dense vector of n ones (n up to the exponent cap + 1)
+        10 => {
+            let mut s = String::with_capacity(8 * n);
+            for i in 0..n {
+                if i > 0 {
+                    s.push('+');
+                }
+                s.push_str(&format!("x^{i}"));
+            }
+            (s, Expect::Values(vec![(1.0, nf), (-1.0, if n % 2 == 0 { 0.0 } else { 1.0 }), (0.0, 1.0)]))
+        }
+        // n terms cycling through all 52 letters: "a+b+...+Z+a+..."  (multivariate only)
+        11 => {
+            let l: Vec<char> = LETTERS52.chars().collect();
+            let mut s = String::with_capacity(2 * n);
+            for i in 0..n {
+                if i > 0 {
+                    s.push('+');
+                }
+                s.push(l[i % 52]);
+            }
+            (s, Expect::Multi { terms: n, variables: n.min(52), at_ones: nf })
+        }
+        // one term: all 52 letters, the whole run repeated n times (every exponent is n)
+        12 => (format!("3{}", LETTERS52.repeat(n)), Expect::Multi { terms: 1, variables: 52, at_ones: 3.0 }),
+        // n non-ASCII letters / n symbols without meaning / n non-ASCII digits
+        13 => ("é".repeat(n), Expect::RejectOr(vec![(1.0, 1.0), (-1.0, if n % 2 == 0 { 1.0 } else { -1.0 })])),
+        14 => (format!("x+{}", "😀".repeat(n)), Expect::Reject),
+        15 => (format!("{}x", "²".repeat(n)), Expect::Reject),
+        // a coefficient of n digits (beyond 308 digits the value is not a finite binary64: accepted or not, no panic)
+        16 => {
+            let digits = "7".repeat(n);
+            let pts = if n <= 300 { vec![(1.0, digits.parse::<f64>().unwrap()), (0.0, 0.0)] } else { vec![] };
+            (format!("{digits}x"), Expect::RejectOr(pts))
+        }
+        // a coefficient with n fractional digits
+        17 => (format!("0.{}5x+1", "0".repeat(n)), Expect::Values(vec![(0.0, 1.0)])),
+        // n copies of "-x^3" with no separator: every '-' starts a term
+        18 => ("-x^3".repeat(n), Expect::Values(vec![(1.0, -nf), (-1.0, nf), (2.0, -8.0 * nf)])),
+        // n alternating variables in one term (multivariate): (xy)^n
+        _ => ("xy".repeat(n), Expect::RejectOr(vec![(1.0, 1.0)])),
+    }
+}
+
+fn long_case(parser: usize, kind: usize, n: usize) -> (String, Result<(), String>) {
+    let (text, expect) = long_text(kind, n);
+    let close = |a: f64, b: f64| a == b || (a - b).abs() <= 1e-9 * b.abs().max(1e-300);
+    // value of the accepted polynomial with x = the point (and every other variable = the point as well)
+    let (shown, accepted, values, structure): (String, bool, Result<Vec<f64>, String>, Option<(usize, usize)>) = if parser == 1 {
+        match catch(|| parse_simple_polynomial(&text)) {
+            None => return ("panic".into(), Err(format!("the univariate parser panicked on a text of {} characters", text.chars().count()))),
+            Some(Err(e)) => (format!("err {}", crate::polyio::err_kind(&e)), false, Ok(vec![]), None),
+            Some(Ok(p)) => {
+                let pts: Vec<f64> = match &expect {
+                    Expect::Values(v) | Expect::RejectOr(v) => v.iter().map(|q| q.0).collect(),
+                    Expect::Multi { .. } => vec![1.0],
+                    Expect::Reject => vec![],
+                };
+                let vals = catch(|| pts.iter().map(|x| p.eval_univariate(*x).map_err(|e| format!("{e:?}"))).collect::<Result<Vec<f64>, String>>());
+                (format!("ok {}", p.coefficients.len()), true, vals.unwrap_or(Err("evaluation panicked".into())), None)
+            }
+        }
+    } else {
+        match catch(|| parse_intermediate_polynomial(&text)) {
+            None => return ("panic".into(), Err(format!("the multivariate parser panicked on a text of {} characters", text.chars().count()))),
+            Some(Err(e)) => (format!("err {}", crate::polyio::err_kind(&e)), false, Ok(vec![]), None),
+            Some(Ok(p)) => {
+                let pts: Vec<f64> = match &expect {
+                    Expect::Values(v) | Expect::RejectOr(v) => v.iter().map(|q| q.0).collect(),
+                    Expect::Multi { .. } => vec![1.0],
+                    Expect::Reject => vec![],
+                };
+                let vals = catch(|| {
+                    pts.iter()
+                        .map(|x| {
+                            let binds: Vec<(String, f64)> = p.variables.iter().map(|v| (v.clone(), *x)).collect();
+                            p.eval_multivariate(&binds).map_err(|e| format!("{e:?}"))
+                        })
+                        .collect::<Result<Vec<f64>, String>>()
+                });
+                (format!("ok {} {}", p.terms.len(), p.variables.len()), true, vals.unwrap_or(Err("evaluation panicked".into())), Some((p.terms.len(), p.variables.len())))
+            }
+        }
+    };
+    let what = format!("long text (kind {kind}, n = {n}, {} characters)", text.chars().count());
+    let check_values = |want: &[(f64, f64)]| -> Result<(), String> {
+        let got = values.clone().map_err(|e| format!("{what}: accepted but evaluation failed: {e}"))?;
+        for ((x, w), g) in want.iter().zip(got) {
+            if w.is_finite() && !close(g, *w) {
+                return Err(format!("{what}: the polynomial gives {g:?} at {x:?}, the text means {w:?}"));
+            }
+        }
+        Ok(())
+    };
+    let verdict = match &expect {
+        Expect::Values(v) => {
+            // kinds outside a parser's grammar are not demanded of it
+            let outside = parser == 1 && matches!(kind, 11 | 12 | 19);
+            if !accepted {
+                if outside { Ok(()) } else { Err(format!("{what}: a text of the documented grammar was rejected ({shown})")) }
+            } else {
+                check_values(v)
+            }
+        }
+        Expect::Reject => {
+            if accepted { Err(format!("{what}: accepted ({shown}) although it has no reading as a polynomial")) } else { Ok(()) }
+        }
+        Expect::RejectOr(v) => {
+            if accepted { check_values(v) } else { Ok(()) }
+        }
+        Expect::Multi { terms, variables, at_ones } => {
+            if parser == 1 && *variables >= 2 {
+                if accepted { Err(format!("{what}: the univariate parser accepted a text in several variables ({shown})")) } else { Ok(()) }
+            } else if !accepted {
+                Err(format!("{what}: a text of the documented grammar was rejected ({shown})"))
+            } else if parser == 1 {
+                check_values(&[(1.0, *at_ones)])
+            } else if !accepted {
+                Err(format!("{what}: a text of the documented grammar was rejected ({shown})"))
+            } else if structure != Some((*terms, *variables)) {
+                Err(format!("{what}: {structure:?} (terms, variables), expected ({terms}, {variables})"))
+            } else {
+                check_values(&[(1.0, *at_ones)])
+            }
+        }
+    };
+    (shown, verdict)
 }
 
 // ---------------------------------------------------------------- generators
@@ -399,6 +681,31 @@ fn safe_char(rng: &mut Rng) -> char {
                 if c.is_ascii() || classless {
                     break c;
                 }
+            }
+        },
+    }
+}
+
+/// any Unicode scalar value, biased towards the characters next to / resembling the accepted ones
+fn any_char(rng: &mut Rng) -> char {
+    match rng.below(12) {
+        0 | 1 => *rng.pick(CONFUSABLES),
+        2 => *rng.pick(NUMERICS),
+        3 => *rng.pick(crate::c01::WIDE_LETTERS),
+        4 => *rng.pick(crate::c01::ALL_SPACES),
+        5 => *rng.pick(ALPHABET),
+        6 => char::from_u32(rng.range(0, 0x7f) as u32).unwrap(),
+        7 => *rng.pick(&LETTERS52.chars().collect::<Vec<char>>()),
+        _ => loop {
+            let cp = match rng.below(5) {
+                0 => rng.range(0x80, 0x7ff),
+                1 => rng.range(0x800, 0xffff),
+                2 => rng.range(0x10000, 0x1ffff),
+                3 => rng.range(0x20000, 0x10ffff),
+                _ => rng.range(0x2000, 0x2bff), // punctuation, super/subscripts, letterlike, number forms, operators
+            } as u32;
+            if let Some(c) = char::from_u32(cp) {
+                break c;
             }
         },
     }
@@ -456,6 +763,168 @@ pub fn generate(seed: u64, thorough: bool, emit: &mut dyn FnMut(String)) {
         let text = mutate(&mut rng, &base);
         let parser = 1 + rng.below(2);
         emit(format!("parse{parser} {}", req_string(&text)));
+    }
+    // (a) letters of both cases, a third letter and non-ASCII letters, exhaustively with the operators of the grammar
+    let letters: String = LETTER_ALPHABET.iter().collect();
+    let lmax = if thorough { 6 } else { 5 };
+    // (b) all 52 ASCII letters (every ordered pair and triple of letters in one text)
+    let all52: String = ALL52_ALPHABET.chars().collect();
+    let amax = if thorough { 4 } else { 3 };
+    // (c) the eight symbols of the core grammar, deeper than the full alphabet allows
+    let deep: String = DEEP_ALPHABET.iter().collect();
+    let dmax = if thorough { 7 } else { 6 };
+    for parser in [1usize, 2] {
+        for a in LETTER_ALPHABET {
+            for b in LETTER_ALPHABET {
+                let p: String = [*a, *b].iter().collect();
+                emit(format!("enumx {parser} {lmax} {} {}", req_string(&letters), req_string(&p)));
+            }
+        }
+        for a in ALL52_ALPHABET.chars() {
+            if thorough {
+                for b in ALL52_ALPHABET.chars() {
+                    let p: String = [a, b].iter().collect();
+                    emit(format!("enumx {parser} {amax} {} {}", req_string(&all52), req_string(&p)));
+                }
+            } else {
+                emit(format!("enumx {parser} {amax} {} {}", req_string(&all52), req_string(&a.to_string())));
+            }
+        }
+        for a in DEEP_ALPHABET {
+            for b in DEEP_ALPHABET {
+                if thorough {
+                    for c in DEEP_ALPHABET {
+                        let p: String = [*a, *b, *c].iter().collect();
+                        emit(format!("enumx {parser} {dmax} {} {}", req_string(&deep), req_string(&p)));
+                    }
+                } else {
+                    let p: String = [*a, *b].iter().collect();
+                    emit(format!("enumx {parser} {dmax} {} {}", req_string(&deep), req_string(&p)));
+                }
+            }
+        }
+    }
+    // (d) two and three different letters in longer grammatical shapes (repeated and merged variables, either case)
+    let l52: Vec<char> = LETTERS52.chars().collect();
+    for i in 0..(if thorough { 6000 } else { 400 }) {
+        let a = *rng.pick(&l52);
+        let b = match i % 4 {
+            0 => a.to_ascii_uppercase(),
+            1 => a.to_ascii_lowercase(),
+            2 => char::from_u32((a as u32) ^ 0x20).unwrap(), // the same letter in the other case
+            _ => *rng.pick(&l52),
+        };
+        let c = *rng.pick(&l52);
+        let texts = [
+            format!("2{a}^2{b}^3{a}"),
+            format!("{a}{b} + {b}{a}"),
+            format!("{a}^2{b} - {b}^2{a} + {c}"),
+            format!("{a}{b}{c}{a}{b}"),
+            format!("3{a}^2 + 2{b} - 1"),
+            format!("{a}^3 - {a} + {b}^0"),
+            format!("{b}{a}^2/3"),
+            format!("1/2{a}{b}^-1{c}^1/2"),
+        ];
+        for t in texts.iter().skip(i % 2).step_by(2) {
+            emit(format!("parse1 {}", req_string(t)));
+            emit(format!("parse2 {}", req_string(t)));
+        }
+    }
+    // (e) arbitrary Unicode of every character class (judged by the oracle alone: the model's class table does not cover it)
+    let n = if thorough { 100_000 } else { 5000 };
+    for i in 0..n {
+        let base = match i % 3 {
+            0 => crate::c01::gen_poly_text(&mut rng).0,
+            1 => {
+                let pool = ['x', 'y', 'z'];
+                let nt = 1 + rng.below(3) as usize;
+                let terms: Vec<crate::c02::GenITerm> = (0..nt).map(|_| crate::c02::gen_iterm(&mut rng, &pool, false)).collect();
+                crate::c02::render(&mut rng, &terms, 2)
+            }
+            _ => {
+                // a short text around one character
+                let pre = *rng.pick(&["", "2", "x", "2x", "x^", "x^2", "2x^2+", "-", "1/", "x^1/"]);
+                let post = *rng.pick(&["", "2", "x", "^2", "+1", "x^2", "/2", ".5"]);
+                format!("{pre}{}{post}", any_char(&mut rng))
+            }
+        };
+        let mut cs: Vec<char> = base.chars().collect();
+        if i % 3 != 2 {
+            for _ in 0..1 + rng.below(3) {
+                let pos = rng.below(cs.len() as u64 + 1) as usize;
+                match rng.below(3) {
+                    0 if !cs.is_empty() => {
+                        let p = pos.min(cs.len() - 1);
+                        cs[p] = any_char(&mut rng);
+                    }
+                    1 if !cs.is_empty() => {
+                        // replace a letter by a letter of another width / a digit by a non-ASCII digit
+                        let p = pos.min(cs.len() - 1);
+                        cs[p] = if cs[p].is_alphabetic() {
+                            *rng.pick(crate::c01::WIDE_LETTERS)
+                        } else if cs[p].is_ascii_digit() {
+                            *rng.pick(NUMERICS)
+                        } else if cs[p].is_whitespace() {
+                            *rng.pick(crate::c01::ALL_SPACES)
+                        } else {
+                            *rng.pick(CONFUSABLES)
+                        };
+                    }
+                    _ => cs.insert(pos, any_char(&mut rng)),
+                }
+            }
+        }
+        cs.truncate(64);
+        let text: String = cs.into_iter().collect();
+        emit(format!("o{} {}", 1 + i % 2, req_string(&text)));
+    }
+    // every listed character alone, after a variable, after a coefficient, inside an exponent
+    for c in CONFUSABLES.iter().chain(NUMERICS).chain(crate::c01::WIDE_LETTERS).chain(crate::c01::ALL_SPACES) {
+        for t in [format!("{c}"), format!("x{c}"), format!("2{c}x"), format!("x^{c}2"), format!("x^2{c}"), format!("2x{c}3"), format!("x {c} 1"), format!("{c}x^2+{c}")] {
+            emit(format!("o1 {}", req_string(&t)));
+            emit(format!("o2 {}", req_string(&t)));
+            // characters in none of the three classes the parsers consult are within the model's reach too
+            if !c.is_whitespace() && !c.is_alphabetic() && !c.is_numeric() {
+                emit(format!("parse1 {}", req_string(&t)));
+                emit(format!("parse2 {}", req_string(&t)));
+            }
+        }
+    }
+    // (f) very long texts: totality and exact meaning
+    let big = thorough;
+    let sizes: Vec<(usize, Vec<usize>)> = vec![
+        (0, vec![255, 256, 257, 1000, 4096, 10000]),
+        (1, vec![19, 20, 21, 39, 40, 100, 1000, 100000]),
+        (2, vec![100, 100000]),
+        (3, vec![2, 255, 256, 257, 1000, 65536, 100000]),
+        (4, vec![0, 1, 2, 3, 1000, 100000]),
+        (5, vec![1, 2, 1000, 100000]),
+        (6, vec![0, 1, 2, 3, 5, 1000, 50000]),
+        (7, vec![1, 2, 1000, 100000]),
+        (8, vec![1, 2, 3, 100000]),
+        (9, vec![0, 1, 1000, 50000]),
+        (10, vec![2, 255, 256, 257, 1000, 4096, 65536, 65537]),
+        (11, vec![1, 52, 53, 1000, 100000]),
+        (12, vec![1, 2, 255, 256, 1000, 2000]),
+        (13, vec![1, 2, 3, 1000, 100000]),
+        (14, vec![1, 1000, 100000]),
+        (15, vec![1, 1000, 100000]),
+        (16, vec![17, 18, 19, 20, 21, 300, 308, 309, 310, 400, 1000, 100000]),
+        (17, vec![17, 19, 21, 300, 323, 324, 325, 400, 1000, 100000]),
+        (18, vec![1, 2, 255, 256, 257, 1000, 25000]),
+        (19, vec![1, 2, 1000, 50000]),
+    ];
+    for (kind, ns) in &sizes {
+        for n in ns {
+            emit(format!("long 1 {kind} {n}"));
+            emit(format!("long 2 {kind} {n}"));
+        }
+    }
+    if big {
+        for (kind, n) in [(0usize, 65536usize), (0, 100000), (3, 1000000), (11, 1000000), (18, 250000), (2, 1000000)] {
+            emit(format!("long 1 {kind} {n}"));
+            emit(format!("long 2 {kind} {n}"));
+        }
     }
     // exponent magnitudes
     for e in ["65535", "65536", "65537", "99999999999", "18446744073709551615", "18446744073709551616",
